@@ -77,7 +77,7 @@ def label (s : Sys) : Op → String
 partial def loop (h : IO.FS.Stream) (out : IO.FS.Stream) (s : Sys) : IO Unit := do
   let line ← h.getLine
   if line.isEmpty then return ()
-  if line.trimAscii.toString.isEmpty then loop h out s else
+  if line.trimAscii.toString.isEmpty || line.startsWith "framemode" then loop h out s else
   match parseOp line with
   | none => out.putStrLn "bad-op"; loop h out s
   | some (.inl cap) => let s' := Sys.init cap; out.putStrLn s!"new | {digest s'}"; loop h out s'
